@@ -1,3 +1,5 @@
+import os
+import sys
 """C06 -- RMSD by the quaternion characteristic polynomial (QCP): `msdFromMandG` (mdtraj/rmsd/src/theobald_rmsd.cpp).
 
 The function is executed from clang's AST on a symbolic inner-product matrix M; the values it computes are compared, as EXACT
@@ -666,7 +668,11 @@ def center_and_trace_all_n(ctx, case):
     MU = {}
     tot_step = lambda atom: [TOT(d, atom + 1) == TOT(d, atom) + x0(atom, d) for d in range(3)]
     cen_def = lambda atom: [CEN(3 * atom + d) == x0(atom, d) - MU[d] for d in range(3)]
-    tr_step = lambda atom: [TR(atom + 1) == TR(atom) + sum((x0(atom, d) - MU[d]) * (x0(atom, d) - MU[d]) for d in range(3))]
+    SQS = z3.Function("SQS", z3.IntSort(), z3.RealSort())  # squared centred norm of an atom: opaque in the recurrence of TR, revealed where the code computes it
+    sq_of = lambda atom: sum((x0(atom, d) - MU[d]) * (x0(atom, d) - MU[d]) for d in range(3))
+    tr_step = lambda atom: [TR(atom + 1) == TR(atom) + SQS(atom)]
+    sq_def = lambda atom: [SQS(atom) == sq_of(atom)]
+    TL = []
     in_x = lambda p: z3.BoolVal(isinstance(p, Ptr) and p.region is X)
 
     def havoc1(interp, env, g):
@@ -711,12 +717,13 @@ def center_and_trace_all_n(ctx, case):
         interp.setvar(env, "confp", Ptr(X, SInt(12 * K2.t)))
         l0, l1 = ctx.real("trace_lane0"), ctx.real("trace_lane1")
         interp.setvar(env, "trace_", FV([l0, l1, 0.0, 0.0]))
+        TL[:] = [rterm(l0), rterm(l1)]
         X.mem = z3.Lambda([t_], z3.If(t_ < 12 * K2.t, CEN(t_), z3.Select(X.mem0, t_)))
         X.writes.clear()
         X.reads.clear()
         out = [K2.t >= 0, TR(0) == 0, rterm(l0) + rterm(l1) == TR(4 * K2.t)]
         for l in range(4):
-            out += cen_def(4 * K2.t + l) + tr_step(4 * K2.t + l)
+            out += cen_def(4 * K2.t + l) + tr_step(4 * K2.t + l) + sq_def(4 * K2.t + l)
         return out
 
     def inv2(interp, env, g):
@@ -753,9 +760,39 @@ def center_and_trace_all_n(ctx, case):
     ctx.assume(*cen_def(PA.t))
     for d in range(3):
         ctx.ensure(f"every-atom-below-n:x'[{d}]=x[{d}]-mean[{d}](probe-atom)", z3.Implies(z3.And(PA.t >= 0, PA.t < n.t), z3.Select(X.mem, 3 * PA.t + d) == x0(PA.t, d) - MU[d]))
-    # the stored value is rewritten by z3.simplify (equivalence preserving: reads of the just-written tail cells are resolved through the store chain),
-    # so that the solver sees a polynomial over x0 and the shift instead of products of array reads
-    ctx.ensure("traces[0]=sum-over-all-atoms-of-squared-centred-coordinates", z3.simplify(z3.Select(T.mem, 0)) == TR(n.t))
+    # traces[0] = TR(n) in two steps: (a) the stored value (rewritten by z3.simplify, equivalence preserving: reads of the just-written tail cells are resolved
+    # through the store chain) is, as a POLYNOMIAL IDENTITY decided by sympy, the block loop's lane sum plus the squared centred norms of the r tail atoms;
+    # (b) with SQS revealed at those atoms (its definition), lane sum + SQS of the tail atoms = TR(n) by the recurrence of TR - a linear obligation
+    def resolve(e):
+        """equivalence-preserving rewriting: a read through a store chain / the lambda memory is resolved wherever z3.simplify decides the index comparison"""
+        if z3.is_app(e) and e.decl().kind() == z3.Z3_OP_SELECT:
+            arr, idx = e.arg(0), resolve(e.arg(1))
+            while True:
+                if z3.is_app(arr) and arr.decl().kind() == z3.Z3_OP_STORE:
+                    eq = z3.simplify(arr.arg(1) == idx)
+                    if z3.is_true(eq):
+                        return resolve(arr.arg(2))
+                    if z3.is_false(eq):
+                        arr = arr.arg(0)
+                        continue
+                elif z3.is_quantifier(arr) and arr.is_lambda():
+                    return resolve(z3.simplify(z3.substitute_vars(arr.body(), idx)))
+                break
+            return z3.Select(arr, idx)
+        if z3.is_app(e) and e.num_args():
+            return e.decl()(*[resolve(c) for c in e.children()])
+        return e
+    got = z3.simplify(resolve(z3.Select(T.mem, 0)))
+    # on this path the block loop has ended, K2 = q is a path fact; the identity is stated over the code's own index terms (12*K2 + ...)
+    want = TL[0] + TL[1] + sum(sq_of(4 * K2.t + l) for l in range(r))
+    try:
+        same = polyid.poly_equal(got, z3.simplify(want))
+    except ValueError:
+        same = False
+    if os.environ.get("C06_DEBUG"):
+        print("GOT", got, "\nWANT", z3.simplify(want), file=sys.stderr)
+    ctx.ensure("traces[0]=lane-sum-of-the-block-loop+squared-centred-norms-of-the-tail-atoms(polynomial-identity)", same, kind="lemma-poly")
+    ctx.ensure("traces[0]=sum-over-all-atoms-of-squared-centred-coordinates(recurrence-of-TR-over-the-tail)", TL[0] + TL[1] + sum(SQS(4 * K2.t + l) for l in range(r)) == TR(n.t))
     ctx.ensure("nothing-at-or-beyond-3n-is-changed(probe-index)", z3.Implies(PI.t >= 3 * n.t, z3.Select(X.mem, PI.t) == z3.Select(X.mem0, PI.t)))
     ctx.ensure("only-trace-slot-0-written", all(z3.is_int_value(z3.simplify(w[0])) and z3.simplify(w[0]).as_long() == 0 for w in T.writes) and len(T.writes) >= 1)
     for t in X.reads:
